@@ -126,7 +126,7 @@ def gen_soil(rng, profile, zmax=2.3):
         for key, vals, p in [("adj_rew", [0, 1], 0.3), ("calc_cn", [0, 1], 0.3), ("adj_cn", [0, 1], 0.5),
                              ("z_cn", [0.1, 0.2, 0.25, 0.3, 0.35, 0.5, 0.75], 0.5),
                              ("z_germ", [0.1, 0.25, 0.3, 0.35, 0.5], 0.4),
-                             ("z_top", [0.1, 0.15, 0.2, 0.3], 0.3),
+                             ("z_top", [0.1, 0.15, 0.2, 0.3, 0.4, 0.6], 0.3),
                              ("evap_z_min", [0.1, 0.15, 0.2], 0.15),
                              ("fshape_cr", [8, 16], 0.1)]:
             if rng.random() < p:
